@@ -70,12 +70,19 @@ class FIBDemux(Device):
         if flow_id in self.ends:
             self.ends[flow_id].put(packet)
         else:
+            # only the table lookup is guarded: an error raised by the output
+            # itself must not be mistaken for a missing route (the packet would
+            # be delivered a second time, to the default output)
             try:
                 if not self.outs:
                     # no output ports: no route, handled like a missing entry
                     raise IndexError('FIBDemux has no output ports')
-                self.outs[self._fib[packet.flow_id]].put(packet)
+                port = self._fib[packet.flow_id]
+                if port < 0:
+                    raise IndexError(f'no output port {port}')
+                out = self.outs[port]
             except (KeyError, IndexError, ValueError) as exc:
                 print("FIB Demux Error: " + str(exc))
-                if self.default_out:
-                    self.default_out.put(packet)
+                out = self.default_out
+            if out:
+                out.put(packet)
